@@ -490,7 +490,7 @@ class Emit:
         _, stmts, tail = body
         if "result" in self.cfg:                      # a `&mut self` method: the value is the tuple of the places it writes
             st = list(stmts)
-            if tail is not None and not (tail[0] == "call" and tail[1] == ("path", ["Ok"])):
+            if tail is not None and not (tail[0] == "call" and tail[1] == ("path", ["Ok"])) and not (tail == ("path", ["self"]) and self.cfg["result"] == "self"):
                 st.append(("expr", tail))
             return "(" + self.imp(st, self.cfg["result"]) + ")"
         if tail is None:
@@ -689,7 +689,7 @@ class Emit:
                         return self.cps_tail(blk, K2, b2, optb)
                     return self.cps(list(blk[1]), blk[2], K2, b2, optb)
                 return self.cps_branch(e, go, borrows, optb, wrapK=True)
-            if e[0] == "mcall" and e[2] == "clone" and self.lhs_name(e[1]) is not None and pat[0] == "pvar":
+            if e[0] == "mcall" and e[2] == "clone" and self.lhs_name(e[1]) is not None and pat[0] == "pvar" and "clone" not in self.cfg.get("method", {}):
                 return "let %s := %s;\n    %s" % (ident(pat[1]), self.lhs_name(e[1]), cont())
             return "let %s := %s;\n    %s" % (self.pat(pat), self.e(e), cont())
         x = s[1]
@@ -1189,6 +1189,24 @@ SORTVOTE = [
          call={"HashMap::default": "[]", "Vec::default": "vecEmpty", "Matrix::new": "(fun (_ _ : Nat) => (0 : Int))", "kuhn_munkres": "km {0}", "Some": "some {0}"},
          mutmethods={"resize": "vecResize {0} {1} {2}", "insert": "mapSet {0} {1} {2}", "push": "vecPush {0} {1}"}),
 ]
+
+CB_STRUCT = {"Universal2DBox": ("CBox α", {"xc": "xc", "yc": "yc", "angle": "angle", "aspect": "aspect", "height": "height", "confidence": "conf", "_vertex_cache": "cache"})}
+CB = dict(group="Cache", file="utils/bbox.rs", impl=r"impl Universal2DBox \{", field={"_vertex_cache": "cache", "confidence": "conf"}, struct=CB_STRUCT, Self="Universal2DBox")
+KERNELS += [
+    dict(CB, name="cbox_new_with_confidence", fn="new_with_confidence", sig="(xc yc : α) (angle : Option α) (aspect height confidence : α) : CBox α"),
+    dict(CB, name="cbox_clone", impl=r"impl Clone for Universal2DBox \{", fn="clone", sig="(self : CBox α) : CBox α",
+         call={"Universal2DBox::new_with_confidence": "cbox_new_with_confidence {0} {1} {2} {3} {4} {5}"}),
+    dict(CB, name="cbox_get_cached_vertices", fn="get_cached_vertices", sig="(self : CBox α) : Option (List (Pt α))"),
+    dict(CB, name="cbox_gen_vertices", fn="gen_vertices", sig="(cos sin : α → α) (self : CBox α) : CBox α", imperative=True, result="self", recordvars=("self",),
+         method={"is_some": "Option.isSome {0}", "get_vertices": "closeRing (vertices cos sin (toU {0}))"}, call={"Some": "some {0}"}),
+    dict(CB, name="cbox_rotate_mut", fn="rotate_mut", sig="(self : CBox α) (angle : α) : CBox α", imperative=True, result="self", recordvars=("self",),
+         call={"Some": "some {0}"}),
+    dict(CB, name="u_intersection", fn="intersection", sig="(sqrt cos sin : α → α) (l r : CBox α) : α", imperative=True, cps=True, ret="{0}",
+         method={"clone": "cbox_clone {0}", "get_cached_vertices": "cbox_get_cached_vertices {0}", "is_none": "Option.isNone {0}", "unwrap_or": "Option.getD {0} {1}",
+                 "as_ref": "{0}", "unwrap": "Option.getD {0} []", "unsigned_area": "polyArea {0}"},
+         call={"Universal2DBox::too_far": "too_far sqrt (toU {0}) (toU {1})", "sutherland_hodgman_clip": "sutherland_hodgman_clip {0} {1}"},
+         mutmethods={"rotate_mut": "cbox_rotate_mut {0} {1}", "gen_vertices": "cbox_gen_vertices cos sin {0}"}),
+]
 # decision kernels over Nat / Rat (no field structure needed)
 GAL_METHOD = {"feature": "featureOf {0}", "attr": "{0}", "as_ref": "{0}", "unwrap": "{0}", "visual_quality": "quality {0}",
                  "partial_cmp": "cmpQ {0} {1}", "len": "List.length {0}", "iter": "{0}", "filter": "List.filter {1} {0}", "count": "List.length {0}"}
@@ -1513,16 +1531,29 @@ def dedupBy {α : Type} (same : α → α → Bool) : List α → List α
   | a :: rest => a :: dedupByAux same a rest
 """
 # group -> (file, configs, header, namespace)
-K_GROUPS = ["Radius", "Box", "Inter", "Dist", "Kalman", "SMetric", "VMetric", "Clip", "Feat"]
+K_GROUPS = ["Radius", "Box", "Inter", "Dist", "Kalman", "SMetric", "VMetric", "Clip", "Feat", "Cache"]
 POSMETRIC = """/-- `PositionalMetricType` -/
 inductive PosMetric (α : Type) where
   | maha
   | iou (thr : α)
 """
-K_IMPORTS = {"Feat": "import SimVerif.Model.Feature\n", "Clip": "import SimVerif.Gen.KInter\n", "Inter": "import SimVerif.Gen.KRadius\n", "Dist": "import SimVerif.Gen.KRadius\n",
+K_IMPORTS = {"Cache": "import SimVerif.Gen.KBox\nimport SimVerif.Gen.KInter\nimport SimVerif.Gen.KClip\n", "Feat": "import SimVerif.Model.Feature\n", "Clip": "import SimVerif.Gen.KInter\n", "Inter": "import SimVerif.Gen.KRadius\n", "Dist": "import SimVerif.Gen.KRadius\n",
              "SMetric": "import SimVerif.Gen.KInter\nimport SimVerif.Gen.KKalman\n",
              "VMetric": "import SimVerif.Gen.KSMetric\nimport SimVerif.Gen.KRadius\nimport SimVerif.Model.VisualMetric\n"}
-K_PRELUDE = {"Clip": "/-- `Vec` indexing panics out of range; the model reads a default there (never reached: indices are in range) -/\ninstance instInhabitedPt : Inhabited (Pt α) := ⟨((0 : α), (0 : α))⟩\n", "SMetric": POSMETRIC, "VMetric": "variable {F : Type}\n"}
+K_PRELUDE = {"Cache": """/-- `Universal2DBox` with its private vertex cache -/
+structure CBox (α : Type) where
+  xc : α
+  yc : α
+  angle : Option α
+  aspect : α
+  height : α
+  conf : α
+  cache : Option (List (Pt α))
+/-- `geo::Polygon::new` closes the exterior ring: the first vertex is repeated at the end (`sutherland_hodgman_clip` reads the closed ring) -/
+def closeRing (l : List (Pt α)) : List (Pt α) := match l with | [] => [] | p :: _ => l ++ [p]
+/-- the public fields -/
+def toU (b : CBox α) : UBox α := { xc := b.xc, yc := b.yc, angle := b.angle, aspect := b.aspect, height := b.height, conf := b.conf }
+""", "Clip": "/-- `Vec` indexing panics out of range; the model reads a default there (never reached: indices are in range) -/\ninstance instInhabitedPt : Inhabited (Pt α) := ⟨((0 : α), (0 : α))⟩\n", "SMetric": POSMETRIC, "VMetric": "variable {F : Type}\n"}
 
 
 def main():
